@@ -6,34 +6,67 @@ FORBIDDEN = re.compile(r'\bsorry\b|\badmit\b|^\s*axiom\s|native_decide|bv_decide
 ALLOWED_AXIOMS = {'propext', 'Classical.choice', 'Quot.sound'}
 
 
-def build_extractor_and_facts():
+EXIT_PARTIAL = 4   # extractor / translator: output complete, part of it is the baseline's (report next to the output)
+
+
+def regen_facts():
+    """regenerate Generated/Facts.lean.  returns (ok, log, failures): ok is False when no usable file was
+    produced (every property is concerned); failures lists the sections whose text had to be taken from
+    the baseline (scope.judge decides which properties they concern)"""
+    from . import scope
     rc, out = run(['go', 'build', '-o', 'extract', '.'], cwd=EXTRACT, env=GOENV)
     if rc != 0:
-        return False, 'extractor build failed:\n' + out
+        return False, 'extractor build failed:\n' + out, []
     rc, out = run([os.path.join(EXTRACT, 'extract'), REPO, FACTS])
+    if rc == EXIT_PARTIAL:
+        fails = scope.read_report(scope.FACTS_REPORT, 'facts')
+        if fails:
+            return True, out, fails
+        return False, 'fact extraction reported failed sections but left no readable report:\n' + out, []
     if rc != 0:
-        return False, 'fact extraction failed (source no longer has the shape the model was written against):\n' + out
-    return True, ''
+        return False, 'fact extraction failed (source no longer has the shape the model was written against):\n' + out, []
+    return True, '', []
 
 
-def build_xlate():
+def build_extractor_and_facts():
+    """(ok, log) with ok = everything regenerated; callers that can scope a failure use regen_facts"""
+    ok, log, fails = regen_facts()
+    return ok and not fails, log
+
+
+def regen_xlate():
     """regenerate Generated/Xlate.lean (Go subset -> Lean translation of the whitelisted functions).
-    The translator writes the file only when its content changes (keeps lake's cache valid); when
-    it fails the old file is deleted, so nothing is ever proved about a stale translation."""
+    The translator writes the file only when its content changes (keeps lake's cache valid).
+    returns (ok, log, failures) as regen_facts: a function that left the subset keeps its baseline
+    translation and is listed in failures; when the translator produces nothing (no baseline text
+    to fall back on, or it does not build) the old file is deleted, so nothing is ever proved about
+    a stale translation."""
+    from . import scope
     rc, out = run(['go', 'build', '-o', 'xlate', './cmd/xlate'], cwd=EXTRACT, env=GOENV)
     if rc == 0:
         rc, out = run([os.path.join(EXTRACT, 'xlate'), REPO, XLATE], env=GOENV)
         if rc == 0:
-            return True, ''
-        out = ('translation failed (a whitelisted function left the supported Go subset, or was renamed/removed):\n'
-               + out)
+            return True, '', []
+        if rc == EXIT_PARTIAL:
+            fails = scope.read_report(scope.XLATE_REPORT, 'xlate')
+            if fails:
+                return True, out, fails
+            out = 'translation reported failed functions but left no readable report:\n' + out
+        else:
+            out = ('translation failed (a whitelisted function left the supported Go subset, or was renamed/removed):\n'
+                   + out)
     else:
         out = 'translator build failed:\n' + out
     try:
         os.remove(XLATE)
     except FileNotFoundError:
         pass
-    return False, out
+    return False, out, []
+
+
+def build_xlate():
+    ok, log, fails = regen_xlate()
+    return ok and not fails, log
 
 
 def lake_build(targets):
